@@ -67,7 +67,7 @@ fn c31_reserved_ids() {
 /// C11 / C30 (complete over offsets, ids, both representations): a name's location reads back exactly
 /// the span supplied -- same file id, start offset, and length equal to the name's text -- for every
 /// u32 start offset, every file id (bit 63 clear, != NONE); the text and the static/heap tag are untouched.
-// @verif prop=C11,C30 class=complete bound="none over (start offset: u32, file id: 63 bits, heap|static); name text fixed to 3 bytes" targets="Name::with_location,Name::location,TaggedFileId::pack,TaggedFileId::file_id,TaggedFileId::tag"
+// @verif prop=C11,C30,C31 class=complete bound="none over (start offset: u32, file id: 63 bits, heap|static); name text fixed to 3 bytes" targets="Name::with_location,Name::location,TaggedFileId::pack,TaggedFileId::file_id,TaggedFileId::tag"
 #[kani::proof]
 fn c11_name_location_roundtrip() {
     let raw: u64 = kani::any();
